@@ -67,7 +67,8 @@ def run_case(case, reports=False, keep_objects=False):
 
     class _AppError(Exception):
         pass
-    ERROR_CLASSES = (RuntimeError, NotImplementedError, KeyError, _AppError, OSError, ZeroDivisionError)
+    # (TimeoutError: an exception of the step's own making, also inside a coroutine step that has a timeout of its own)
+    ERROR_CLASSES = (RuntimeError, NotImplementedError, KeyError, _AppError, OSError, ZeroDivisionError, TimeoutError)
     from behave.model import Scenario, ScenarioOutline
     import parse as parse_mod
 
